@@ -297,6 +297,11 @@ def stepI64Op (d : DState) (op : String) (toks impl : List String) : Option (DSt
     let id ← id.toNat?
     let inst ← get id
     some (report ((put d id { inst with st := inst.st.reset, hist := [] }).flag "reset") op { model := "ok", impl := implS, kind := "mean-i64" })
+  | [cp, id, nid] =>
+    -- a copy (`Clone`, or state extraction and re-injection) is the same value in the model
+    if cp != "clone" && cp != "gutsrt" then none else do
+    let inst ← get (← id.toNat?)
+    some (report ((put d (← nid.toNat?) inst).flag cp) op { model := "ok", impl := implS, kind := "mean-i64" })
   | _ => none
 
 def stepFloatOp (d : DState) (op : String) (toks impl : List String) : Option (DState × List String) :=
